@@ -733,8 +733,14 @@ func (x *Unit) havocForLoop(st *State, ms *modSet, loop ast.Stmt) {
 			x.havocComp(st, "alloc")
 			x.assumes = append(x.assumes, "(>= "+x.get(st, "alloc").S+" "+old.S+")")
 		}
+		// the lock state is changed by callees only in a balanced way (the same assumption as at every call site, where these
+		// components are not havocked); it is havocked here only when the loop body itself acquires or releases a lock
+		direct := loopLocksDirectly(loop)
 		for c := range ms.comps {
 			if c == "alloc" {
+				continue
+			}
+			if !direct && (c == "$nlocks" || strings.HasPrefix(c, "L:")) {
 				continue
 			}
 			if _, ok := x.compSorts[c]; ok {
@@ -1141,4 +1147,24 @@ func isNilNode(n ast.Node) bool {
 		return v == nil
 	}
 	return false
+}
+
+// loopLocksDirectly: the loop body (outside function literals) calls Lock/Unlock/RLock/RUnlock itself.
+func loopLocksDirectly(loop ast.Stmt) bool {
+	found := false
+	ast.Inspect(loop, func(n ast.Node) bool {
+		if _, ok := n.(*ast.FuncLit); ok {
+			return false
+		}
+		if c, ok := n.(*ast.CallExpr); ok {
+			if sel, ok := c.Fun.(*ast.SelectorExpr); ok {
+				switch sel.Sel.Name {
+				case "Lock", "Unlock", "RLock", "RUnlock":
+					found = true
+				}
+			}
+		}
+		return true
+	})
+	return found
 }
